@@ -173,9 +173,9 @@ def run(rep, tier):
     lib.tlc_expect_ok(ee, "partly elided returns")
     rep.add_tlc("Lifetimes/elide", ee)
     ce = c04.fix(ee.printed["CASE"])
-    if tier == "quick":
+    if tier == "quick" and len(ce) > 6000:      # (the whole set is small: both tiers replay all of it)
         random.Random(lib.seed()).shuffle(ce)
-        ce = [c for c in ce if c["sig"]["ret"]["kind"].endswith("_e")][:300] + [c for c in ce if not c["sig"]["ret"]["kind"].endswith("_e")][:100]
+        ce = ce[:6000]
     ne = c04.evaluate(rep, ce, ["a", "b"], wd)
     rep.extra["partly_elided_return_signatures"] = ne
     ncheck += ne
